@@ -15,6 +15,7 @@ from ..desugar import (
 from ..ir import peephole
 from ..ir.ast import Module
 from ..iteration_graph import Definition, generate_ir
+from ..iteration_graph.outputs import UnsupportedOutputOrderError
 from ..kernel_type import KernelType
 from ..problem import Problem
 
@@ -38,7 +39,12 @@ def generate_module_tensora(
         case _:
             raise NotImplementedError()
 
-    functions = [generate_ir(definition, graph, kernel_type) for kernel_type in kernel_types]
+    try:
+        functions = [generate_ir(definition, graph, kernel_type) for kernel_type in kernel_types]
+    except UnsupportedOutputOrderError:
+        # The chosen iteration order cannot append to the sparse output layers in order. Report it
+        # as a problem without a kernel, which callers handle, rather than as an internal error.
+        return Failure(NoKernelFoundError())
     module = Module(functions)
 
     if os.environ.get("TENSORA_VERIF") == "1" and os.environ.get("TENSORA_VERIF_NO_PEEPHOLE"):
